@@ -42,8 +42,11 @@ func init() {
 }
 
 // renderValue renders a value by its definition (no local variable names).
+// renderDepth bounds how far a value's definition is unfolded (3 for the frozen C03 table).
+var renderDepth = 3
+
 func renderValue(v ssa.Value, d int) string {
-	if d > 3 {
+	if d > renderDepth {
 		return "…"
 	}
 	switch x := v.(type) {
